@@ -54,6 +54,16 @@ pub fn server_message(op: &Op) -> Option<(RMsg, u32, u32)> {
                     Some(c) => status_obj("status", c, "d"),
                     None => amf::obj(vec![("level", amf::s("status"))]),
                 }],
+                // the status object followed by further arguments (servers append a client id,
+                // details ...): the information object is the first argument
+                4 => vec![
+                    match code {
+                        Some(c) => status_obj("status", c, "d"),
+                        None => amf::obj(vec![("level", amf::s("status"))]),
+                    },
+                    V::Null,
+                    amf::num(7.0),
+                ],
                 1 => vec![],
                 2 => vec![amf::s("not an object")],
                 _ => vec![amf::obj(vec![("code", amf::num(5.0))])],
@@ -243,8 +253,8 @@ pub fn resolve(sym: Sym, m: &Model, rng: &mut Rng, step: usize) -> Op {
         Sym::SendPing => Op::SendPing,
         Sym::Result(t, form) => Op::Result { txid: sel_tx(m, t, rng), stream_id: if form == 0 { Some(*rng.pick(&[1.0, 5.0, 5.0, 7.0, 0.0])) } else { None }, non_number: form == 2 },
         Sym::Error(t) => Op::Error { txid: sel_tx(m, t, rng) },
-        Sym::StatusPlayStart => Op::OnStatus { code: Some("NetStream.Play.Start".into()), form: 0, msid: sel_msid(m, MsidSel::Active) },
-        Sym::StatusPublishStart => Op::OnStatus { code: Some("NetStream.Publish.Start".into()), form: 0, msid: sel_msid(m, MsidSel::Active) },
+        Sym::StatusPlayStart => Op::OnStatus { code: Some("NetStream.Play.Start".into()), form: if rng.chance(1, 5) { 4 } else { 0 }, msid: sel_msid(m, MsidSel::Active) },
+        Sym::StatusPublishStart => Op::OnStatus { code: Some("NetStream.Publish.Start".into()), form: if rng.chance(1, 5) { 4 } else { 0 }, msid: sel_msid(m, MsidSel::Active) },
         Sym::StatusUnknown => Op::OnStatus { code: Some(rng.pick(&["NetStream.Play.Reset", "NetStream.Play.Stop", "NetStream.Unpublish.Success", "x"]).to_string()), form: 0, msid: sel_msid(m, MsidSel::Active) },
         Sym::StatusMalformed(f) => Op::OnStatus { code: None, form: f, msid: 0 },
         Sym::Audio(s) => {
